@@ -376,6 +376,11 @@ class Check:
             cov.setdefault("programs", cov["evaluations"])
             cov.setdefault("disagreements_checked", cov["evaluations"])
         cov.update(self.extra)
+        if not isinstance(cov.get("exhaustive", False), bool):
+            # the schema's `exhaustive` is a flag for "the whole space was enumerated"; the checks enumerate
+            # finite sub-spaces completely inside an unbounded space, which is described here instead
+            cov["exhaustive_subspaces"] = cov.pop("exhaustive")
+            cov["exhaustive"] = False
         lines = []
         code = EXIT_OK
         for fid, n in sorted(self.known_seen.items()):
